@@ -440,6 +440,9 @@ func runC06(c *ctx) {
 				cfg := wcfg{ctor, side, op, "-"}
 				big := strings.HasPrefix(ctor, "s655") || strings.HasPrefix(ctor, "b655") || ctor == "u70000" || ctor == "d0"
 				k := nrand
+				if big && c.thor {
+					k = 12 // big buffers: each history is 100-400 KB of observation; 12 x 4 per constructor
+				}
 				if big && !c.thor {
 					k = 0
 					if (int(side)+int(op))%2 == 0 && op == 1 {
